@@ -35,15 +35,17 @@ VALUES = {"as": ("Inner", "Inner"), "type": ("string", "string"), "rename": ("re
           "rename_all_fields": ("camelCase", "SCREAMING_SNAKE_CASE"), "tag": ("kind", "type2"), "content": ("data", "payload")}
 JUNK_SRC = {"skip_serializing_if": 'skip_serializing_if = "Option::is_none"', "rename_split": 'rename(serialize = "ser_name")',
             "bound_paren": 'bound(serialize = "T: Clone")', "default_path": 'default = "some::path"', "other": "other",
-            "alias": 'alias = "x"',
+            "alias": 'alias = "x"', "rename_all_de": 'rename_all(deserialize = "SCREAMING_SNAKE_CASE")', "rename_de": 'rename(deserialize = "de_name")',
             # long values with multi-byte characters at every byte offset (whatever the derive does with the text of an
             # entry it does not know - print it, cut it - has to survive them)
             "alias_long_a": 'alias = "%s"' % ("ä" * 60), "alias_long_b": 'alias = "x%s"' % ("ä" * 60), "expecting_long": 'expecting = "%s"' % ("日本語の説明" * 12), "crate_kw": 'crate = "my_serde"', "deny_unknown_fields": "deny_unknown_fields", "borrow": "borrow", "getter": 'getter = "f"'}
 
 
 def junk_cls(pos, name):
-    if name == "rename_split":
+    if name in ("rename_split", "rename_de"):
         return "bad"
+    if name == "rename_all_de":
+        return "bad" if pos in ("struct", "enum", "variant") else "unknown"
     if name == "bound_paren":
         return "bad" if pos in ("struct", "enum") else "unknown"
     if name == "default_path":
